@@ -437,8 +437,9 @@ theorem lastTop_eq (cur : Int) (reqs : List (Int × Int)) : lastTop cur reqs = P
   | nil => rfl
   | cons r reqs ih => obtain ⟨x, y⟩ := r; simp only [lastTop, Proofs.C10.lastTop]; exact ih y
 
-/-- **unique ⇒ pairwise distinct**, for every sequence of requests (growing, moving to the next
-    iteration's range, failing ones included) and every generator satisfying the C12 permutation
+/-- **unique ⇒ pairwise distinct**, for EVERY sequence of `(a, b)` requests — non-monotone ones
+    included: growing, moving up to the next iteration's range, and the bottom moving back down
+    (whole-table fallback after a move; see `unique_bottom_down_fails`), failing ones included — and every generator satisfying the C12 permutation
     theorem. -/
 theorem unique_no_repeat (mk : Mk) (hmk : C12.GoodMk mk) (reqs : List (Int × Int)) :
     (values (uniqueRun mk none reqs).2).Nodup := by
@@ -513,6 +514,69 @@ theorem unique_compatible_never_fails (mk : Mk) (hmk : C12.GoodMk mk) (a b : Int
     (reqs : List (Int × Int)) (hc : CompatReqs a b reqs) :
     Out.assertion ∉ (uniqueRun mk none ((a, b) :: reqs)).2 :=
   Proofs.C10.uniqueRun_compat_first mk hmk a b hab reqs (compatReqs_iff.1 hc)
+
+/-- **The bottom of the range moves down** (whole-table fallback `min_id = 1` after the range had
+    moved up: an iteration that creates no new target): `unique_random(a, b)` with `a` below the
+    current range's bottom hits `assert new_min >= self.orig_max` — the outcome is `assertion`
+    (a `DataGenError` for the user), the context is unchanged, and in particular *nothing is handed
+    out*: no repeat is possible (`unique_no_repeat` covers these non-monotone histories too). -/
+theorem unique_bottom_down_fails (mk : Mk) (hmk : C12.GoodMk mk) (pre : List (Int × Int))
+    (s : RandRange.St) (hs : (uniqueRun mk none pre).1 = some s) (a b : Int) (ha : a < s.u.min) :
+    uniqueDraw mk (uniqueRun mk none pre).1 a b = (some s, .assertion) := by
+  have hinv := Proofs.C10.uniqueRun_inv1 mk hmk pre none [] rfl
+  rw [hs] at hinv ⊢
+  simp only [Proofs.C10.UInv1] at hinv
+  have hlt := hinv.lt
+  have hstep : RandRange.step mk s (.setRange a (b + 1)) = (s, .assertion) := by
+    simp only [RandRange.step]
+    rw [if_neg (by omega), if_neg (by omega)]
+  simp [uniqueDraw, hstep]
+
+/-- FULL STATEMENT (refuted below on the real code, finding D51): a unique pick fails only when
+    every target of the requested range has been handed out. -/
+def UniqueFailsOnlyWhenExhausted : Prop :=
+  ∀ (mk : Mk), C12.GoodMk mk → ∀ (pre : List (Int × Int)) (a b : Int), a ≤ b →
+    (∀ v, (uniqueDraw mk (uniqueRun mk none pre).1 a b).2 ≠ .value v) →
+    ∀ x, a ≤ x → x ≤ b → x ∈ values (uniqueRun mk none pre).2
+
+/-- **Refuted (finding D51)**: ranges `[1,2]`, `[3,4]` (the range moved up), then the fallback
+    `[1,4]` (an iteration without new targets): the third request fails (assertion) although `2`
+    and `4` were never handed out. -/
+theorem unique_fails_only_when_exhausted_refuted : ¬ UniqueFailsOnlyWhenExhausted := by
+  intro h
+  have hmk : C12.GoodMk (fun _ a b => C12.rangeInt a b) := fun _ _ _ _ => List.Perm.refl _
+  have hout : (uniqueDraw (fun _ a b => C12.rangeInt a b)
+      (uniqueRun (fun _ a b => C12.rangeInt a b) none [(1, 2), (3, 4)]).1 1 4).2 = .assertion := by decide
+  have := h (fun _ a b => C12.rangeInt a b) hmk [(1, 2), (3, 4)] 1 4 (by decide)
+    (fun v => by rw [hout]; simp) 2 (by decide) (by decide)
+  revert this
+  decide
+
+/-- **Partial (what holds)**: for growth-only histories (one iteration, or the whole-table fallback
+    throughout) a unique pick fails only by exhaustion, and then every target of the range has been
+    handed out. -/
+theorem unique_fails_only_when_exhausted_partial (mk : Mk) (hmk : C12.GoodMk mk) (a b0 : Int) (hab : a ≤ b0)
+    (reqs : List (Int × Int)) (hext : ExtReqs a b0 reqs) (b : Int) (hb : lastTop b0 reqs ≤ b)
+    (hfail : ∀ v, (uniqueDraw mk (uniqueRun mk none ((a, b0) :: reqs)).1 a b).2 ≠ .value v) :
+    (uniqueDraw mk (uniqueRun mk none ((a, b0) :: reqs)).1 a b).2 = .stop ∧
+      ∀ x, a ≤ x → x ≤ b → x ∈ values (uniqueRun mk none ((a, b0) :: reqs)).2 := by
+  obtain ⟨s1, v, h1, hinv, hc⟩ := Proofs.C10.uniqueDraw_first mk hmk a b0 hab
+  obtain ⟨s', e1, e2, -, e4⟩ := Proofs.C10.uniqueRun_ext mk hmk a reqs s1 [v] b0 hinv hc (extReqs_iff.1 hext)
+  rw [← lastTop_eq] at e4
+  have hv : values (uniqueRun mk none ((a, b0) :: reqs)).2 = [v] ++ values (uniqueRun mk (some s1) reqs).2 := by
+    simp only [uniqueRun, h1]
+    rw [Proofs.C12.values_cons]; rfl
+  have hst : (uniqueRun mk none ((a, b0) :: reqs)).1 = some s' := by
+    simp only [uniqueRun, h1]; exact e1
+  rw [hv]
+  rw [hst] at hfail ⊢
+  obtain ⟨s'', -, hcm, hcase⟩ := Proofs.C10.uniqueDraw_ext mk hmk a b s' _ e2 (by omega)
+  rcases hcase with ⟨-, w, hw, -⟩ | ⟨hlen, hs, hinv2⟩
+  · exact absurd hw (hfail w)
+  · refine ⟨hs, fun x hx1 hx2 => ?_⟩
+    have hp := Proofs.C10.inv2_full a s'' _ hinv2 (by rw [hcm]; exact hlen)
+    rw [hcm] at hp
+    exact hp.mem_iff.2 (Proofs.C12.mem_rangeIntP.2 ⟨hx1, by omega⟩)
 
 /-- **A unique pick succeeds iff an unused target is left**: after any growth-only history on the
     range starting at `a`, a request `(a, b)` returns a value when fewer values than `b + 1 - a`
